@@ -141,7 +141,7 @@ func TestServerCap(t *testing.T) {
 			}
 		}
 	}
-	vkit.Check(t, 4800, 48000, func(t *rapid.T) {
+	vkit.Check(t, 9600, 96000, func(t *rapid.T) {
 		lim := rapid.SampledFrom([]int{0, 1, 1, 2, 5}).Draw(t, "limit")
 		c := Case{Kind: "server-cap", Limit: lim, Mode: "concurrent", Rounds: 300}
 		c.Occ = lim - 1
@@ -236,7 +236,7 @@ func TestControlCap(t *testing.T) {
 			}
 		}
 	}
-	vkit.Check(t, 2400, 24000, func(t *rapid.T) {
+	vkit.Check(t, 4800, 48000, func(t *rapid.T) {
 		lim := rapid.SampledFrom([]int{0, 1, 2, 3}).Draw(t, "limit")
 		c := Case{Kind: "control-cap", Limit: lim, Mode: "concurrent", Rounds: 300}
 		c.Occ = lim - 1
@@ -335,7 +335,7 @@ func TestTunnelCap(t *testing.T) {
 			}
 		}
 	}
-	vkit.Check(t, 1200, 12000, func(t *rapid.T) {
+	vkit.Check(t, 2400, 24000, func(t *rapid.T) {
 		lim := rapid.SampledFrom([]int{0, 1, 3}).Draw(t, "limit")
 		c := Case{Kind: "tunnel-cap", Limit: lim, Mode: "concurrent", Rounds: 300}
 		c.Occ = lim - 1
